@@ -467,6 +467,8 @@ OPNMIDI_EXPORT void opn2_setLogarithmicVolumes(struct OPN2_MIDIPlayer *device, i
     {
         if(play->m_setup.LogarithmicVolumes != 0)
             synth.setVolumeScaleModel(OPNMIDI_VolumeModel_NativeOPN2);
+        else if(play->m_setup.VolumeModel == OPNMIDI_VolumeModel_AUTO)//Use bank default volume model
+            synth.m_volumeScale = (Synth::VolumesScale)synth.m_insBankSetup.volumeModel;
         else
             synth.setVolumeScaleModel(static_cast<OPNMIDI_VolumeModels>(play->m_setup.VolumeModel));
     }
@@ -480,6 +482,9 @@ OPNMIDI_EXPORT void opn2_setVolumeRangeModel(struct OPN2_MIDIPlayer *device, int
     assert(play);
     Synth &synth = *play->m_synth;
     play->m_setup.VolumeModel = volumeModel;
+    // An explicitly chosen model replaces the deprecated logarithmic volumes switch
+    // (the switch used to win again at the next reset or file load)
+    play->m_setup.LogarithmicVolumes = 0;
     if(!synth.setupLocked())
     {
         if(play->m_setup.VolumeModel == OPNMIDI_VolumeModel_AUTO)//Use bank default volume model
